@@ -344,7 +344,7 @@ def json_framing(ctx):
             # what a row looks like depends on that row only: neighbours that are equal but not identical, selections that share a name,
             # a selection missing in one row and present in the next, a write failure on a long non-ASCII row
             BAT = [([], '{"a":1,"b":2} {"b":2,"a":1} [{"x":1,"y":2}] [{"y":2,"x":1}] 18446744073709551615 18446744073709551616 -9223372036854775808 -9223372036854775809 1 1.0 "a" "a"',
-                    '{"a":1,"b":2}\n{"b":2,"a":1}\n[{"x":1,"y":2}]\n[{"y":2,"x":1}]\n18446744073709551615\n18446744073709551616\n-9223372036854775808\n-9223372036854776000\n1\n1\n"a"\n"a"\n'),
+                    '{"a":1,"b":2}\n{"b":2,"a":1}\n[{"x":1,"y":2}]\n[{"y":2,"x":1}]\n18446744073709551615\n18446744073709552000\n-9223372036854775808\n-9223372036854776000\n1\n1\n"a"\n"a"\n'),
                    (['--select', '.id=id', '--select', '.name=name'], '{"id":1,"name":"a"} {"name":"b"} {"id":3,"name":"c"} {"id":4}', '{"id":1,"name":"a"}\n{"name":"b"}\n{"id":3,"name":"c"}\n{"id":4}\n')]
             for argv_, stdin_, exp_ in BAT:
                 rb = run_driver(ctx, ['--style', 'consise'] + argv_, stdin_.encode())
